@@ -74,6 +74,10 @@ def plan(r, fmt, ntok, nchar, kinds=None):
         # a replaced token of a particular kind: the module an instantiation names becomes another module of the
         # file (self-instancing modules, mutual recursion, a second root ...)
         return [{"f": "module_swap", "n": r.randint(0, 50), "m": r.randint(0, 50)}]
+    if fmt == "edf" and k == "replace" and r.random() < 0.6:
+        # a replaced token of a particular kind: the quoted original name of one rename becomes that of another (two
+        # siblings with one name but different identifiers), or one identifier becomes another one of the file
+        return [{"f": "class_swap", "cls": r.choice(["string", "string", "ident"]), "n": r.randint(0, 200), "m": r.randint(0, 200)}]
     if k == "truncate_tok":
         return [{"f": k, "at": r.randint(0, max(0, ntok - 1))}]
     if k == "truncate_char":
@@ -122,6 +126,22 @@ def apply(fmt, text, plan_items):
             toks[k] = toks[it["src"] % len(toks)]
             changed = True
             facts["applied"].append(f)
+        elif f == "class_swap" and fmt == "edf":
+            if it["cls"] == "string":
+                pos = [i for i, t in enumerate(toks) if t.startswith('"') and i > 1 and toks[i - 2].lower() == "rename"]
+            else:
+                pos = [i for i, t in enumerate(toks) if i > 0 and toks[i - 1].lower() == "rename"]
+            if len(pos) > 1:
+                k = pos[it["n"] % len(pos)]
+                # prefer a source close by (the same cell): nets and instances of one cell sit next to each other
+                off = 4 if it["cls"] == "string" else 3          # ( net ( rename id "name" )
+                same = [j for j in pos if toks[j] != toks[k] and j >= off and k >= off
+                        and toks[j - off].lower() == toks[k - off].lower()]
+                near = sorted((abs(j - k), j) for j in (same or [j for j in pos if toks[j] != toks[k]]))[:4]
+                if near:
+                    toks[k] = toks[near[it["m"] % len(near)][1]]
+                    changed = True
+                    facts["applied"].append("replace_same_class")
         elif f == "module_swap" and fmt == "v":
             names = [toks[i + 1] for i, t in enumerate(toks[:-1]) if t == "module"]
             uses = [i for i, t in enumerate(toks) if t in names and i > 0 and toks[i - 1] != "module"]
